@@ -5,6 +5,7 @@ CONSTANTS
   MaxLoads = 2
   TTL = 1
   GenCheck = FALSE
+  Locked = TRUE
   Export = FALSE
 VIEW View
 INVARIANTS TypeOK NoStale OneFlight Answered
